@@ -79,6 +79,31 @@ CHECKS.update({
    note=SCHED_NOTE + " Memory-level data races and 10^4-element lists are outside exhaustive reach (stated in DESIGN.md §6)."),
 })
 
+BIN_NOTE = ("Trusted base: Go toolchain; the small reference functions in the harness; recursive snapshots (path, type, mode, SHA-256) of the whole sandbox; tmpfs. "
+            "Every case is an invocation of the spok binary built from /repo's working tree, run as uid nobody with cwd and HOME inside a sandbox under /dev/shm and a fully specified environment.")
+CHECKS.update({
+ "C09": dict(engine="cfgmc-c09", cat="model_checking", ref="§2.4, §3 C09",
+   technique="exhaustive enumeration of program shapes x failing-command placements x statuses x modes through the built binary, each followed by a second run",
+   text="Every (shape in {single, independent, chain, diamond leg}) x 1-3 commands per task x every single failing (task, position) x status in {1,2,127,255} and every pair of failing commands x mode in {plain, --quiet, --json, --force}: the invocation must exit non-zero and name a task that really failed; after switching the failure off, the next unforced run must not treat the failed task as up to date.",
+   note=BIN_NOTE),
+ "C12": dict(engine="cfgmc-c12", cat="model_checking", ref="§2.4, §3 C12",
+   technique="exhaustive enumeration of output-declaration sets x project trees x clean-task presence through `spok --clean`, compared with a reference via whole-sandbox snapshots",
+   text="Every set of <=2 output declarations over 18 kinds (literal, directory, nested, three globs, variables with relative / nested / join values, and dangerous values: \"\", \".\", \"..\", variables holding them, the project dir, its parent, the spokfile itself, a glob matching everything) x 10 trees (thorough 256) x with/without a clean task: removed paths must be a subset of the designated ones (equal when spok exits 0), never the spokfile, its directory or anything above; nothing else changes.",
+   note=BIN_NOTE + " Relative outputs are read relative to the spokfile directory; runs are from the project root."),
+ "C13": dict(engine="cfgmc-c13", cat="model_checking", ref="§2.4, §3 C13",
+   technique="exhaustive enumeration of variable name x value x kind configurations through the built binary (--vars, template task, environment task), compared with textual substitution",
+   text="Names {unset, HOME, ambient, .env, both} x 17 string values (blanks, $x, braces, =, #, quote, empty, non-ASCII, tab) / join part lists from root and nested cwd / exec with surrounding white space / failing exec, with and without a second variable: --vars value, the command text after {{.NAME}} substitution and the value of $NAME seen by the command must all be the spokfile value.",
+   note=BIN_NOTE),
+ "C19": dict(engine="cfgmc-c19", cat="model_checking", ref="§2.4, §3 C19",
+   technique="full product of spokfile class x action x cwd x .gitignore x cache presence through the built binary between two whole-sandbox snapshots",
+   text="10 spokfile classes (valid canonical/unformatted, variables only, syntax error, three load errors, parses-but-does-not-load, absent, directory) x 15 command lines x root/nested cwd x .gitignore x earlier cache: every created/changed/removed path must be allowed by the action (.spok next to the spokfile; the spokfile for --fmt only when it parses and loads; cwd/spokfile and an appended .gitignore for --init).",
+   note=BIN_NOTE + " Timestamps are not part of a snapshot."),
+ "C20": dict(engine="cfgmc-c20", cat="model_checking", ref="§2.4, §3 C20",
+   technique="exhaustive enumeration of small programs x report/listing flags through the built binary, compared with a harness-owned side-effect log",
+   text="1-3 tasks x docstrings x default task x 0-2 commands (distinct stdout/stderr markers) x 0-2 variables x chain/independent x file dependencies: --json (first and repeated run) must be one JSON list of exactly the run's tasks in execution order with skipped flags and per-command text/stdout/stderr/status; --quiet stdout empty; --show/--vars complete, sorted, with docstrings/values; no arguments runs default or lists.",
+   note=BIN_NOTE + " JSON field names are not prescribed: fields are recognised by type and content."),
+})
+
 NOT_YET = {}
 
 ALL = ["C%02d" % i for i in range(1, 21)]
@@ -120,6 +145,8 @@ def main():
              "kind_free_text": "explicit-state search over project histories: states (disk, reference model), transitions executed by the real code"},
             {"name": "schedmc", "path": "harness/cmd/mc/schedmc.go, harness/overlay/vsched, harness/cmd/rewrite", "serves_properties": ["C04", "C18"],
              "kind_free_text": "hand-written stateless model checker for Go: controlled scheduler + source rewriter, preemption/deviation-bounded DFS over choice sequences, optional state-key pruning"},
+            {"name": "cfgmc-bin", "path": "harness/cmd/mc/c09.go c12.go c13.go c19.go c20.go, harness/internal/bin", "serves_properties": ["C09", "C12", "C13", "C19", "C20"],
+             "kind_free_text": "exhaustive enumeration of small configuration universes executed through the built spok binary in a sandbox as uid nobody, with whole-sandbox snapshots and a harness-owned side-effect log"},
             {"name": "cfgmc", "path": "harness/cmd/mc/c03.go c05.go c17.go", "serves_properties": ["C03", "C05", "C17"],
              "kind_free_text": "exhaustive enumeration of small configuration universes (graphs x requests x iteration orders, trees x patterns, chains x start x stop) executed on the real code against reference functions"},
         ],
